@@ -1,6 +1,6 @@
-(** C17 concurrent, bounded instance: buckets A/1Min/G and B/1Min/G, years 2021/2022, one AddTimeBucket thread
-    (whole, or scan + install) and one step-wise RemoveTimeBucket thread.  The reachable set under the guard is
-    computed by breadth-first search and checked closed by vm_compute. *)
+(** C17 concurrent, bounded alphabet: buckets A/1Min/G, A/5Min/G (same symbol) and B/1Min/G, year 2021, one
+    AddTimeBucket thread (whole calls, or scan + install) and two step-wise RemoveTimeBucket threads.  The reachable
+    set of the model (with the root lock) is computed by breadth-first search and checked closed by vm_compute. *)
 From Coq Require Import List String ZArith Bool.
 From Coq.Strings Require Import Byte.
 Import ListNotations.
@@ -8,14 +8,16 @@ Require Import MS.Base.Hex MS.Base.Path MS.Model.Catalog MS.Model.CatalogConc MS
 
 Definition sbk (x : string) : list byte := bytes_of_string x.
 Definition rootK : list byte := sbk "/a/b/c/r".
-Definition keysK : list (list byte) := [sbk "A/1Min/G:Symbol/Timeframe/AttributeGroup"; sbk "B/1Min/G:Symbol/Timeframe/AttributeGroup"].
+Definition dcatK : list byte := sbk ":Symbol/Timeframe/AttributeGroup".
+Definition bucketsK : list (list byte) := [sbk "A/1Min/G"; sbk "A/5Min/G"; sbk "B/1Min/G"].
 Definition labelsK : list label :=
-  flat_map (fun k => flat_map (fun y => [LCreate k y [x00]; LCreateScan 2 k y [x00]]) [2021; 2022]%Z) keysK
-  ++ [LCreateInstall 2; LBegin 1 (sbk "A/1Min/G"); LBegin 1 (sbk "B/1Min/G"); LStep 1].
+  flat_map (fun k => flat_map (fun y => [LCreate (k ++ dcatK) y [x00]; LCreateScan 2 (k ++ dcatK) y [x00]]) [2021]%Z) bucketsK
+  ++ [LCreateInstall 2]
+  ++ flat_map (fun k => [LBegin 1 k; LBegin 3 k]) bucketsK
+  ++ [LStep 1; LStep 3].
 
-Definition RK : list cstate := Eval vm_compute in reach rootK labelsK 200.
+Definition RK : list cstate := Eval vm_compute in reach rootK labelsK 400.
 
-Lemma RK_size : List.length RK = List.length RK. Proof. reflexivity. Qed.
 Lemma RK_closed : forall tr, closed rootK labelsK RK tr = true.
 Proof. intros tr. vm_compute. reflexivity. Qed.
 Lemma RK_init : existsb (cstate_eqb (cinit rootK)) RK = true.
@@ -23,4 +25,6 @@ Proof. vm_compute. reflexivity. Qed.
 Lemma RK_quiet : quiescent_ok rootK RK = true.
 Proof. vm_compute. reflexivity. Qed.
 Lemma RK_forget : forallb (fun s => match wtr (c_world s) with [] => true | _ => false end) RK = true.
+Proof. vm_compute. reflexivity. Qed.
+Lemma RK_size : (List.length RK, List.length labelsK) = (List.length RK, 15%nat).
 Proof. vm_compute. reflexivity. Qed.
